@@ -6,6 +6,7 @@ import (
 	"regexp/syntax"
 	"sort"
 	"strings"
+	"unicode"
 )
 
 // Seed is a pattern known to select a given strategy / fast path on the pinned tree, together with the haystack
@@ -39,6 +40,15 @@ var Seeds = []Seed{
 	{"misc", `(a|ab)(c|bcd)(d*)`}, {"misc", `(a*)+`}, {"misc", `(a|b)*?c`}, {"misc", `\B$`}, {"misc", `^(?:\w|@|$)ab`},
 	{"misc", `\W{2}`}, {"misc", `.*\n`}, {"misc", `(?s).*a`}, {"misc", `\d{1,3}\.\d{1,3}`}, {"misc", `[a-z]+ing`},
 	{"misc", `"[^"]*"`}, {"misc", `<(\w+)>.*</(\w+)>`}, {"misc", `(?i)(foo|bar)baz`}, {"misc", `x*yz`}, {"misc", `ab?c+d*e`},
+	// added after the seeded-change evaluation (DESIGN §11): self-overlapping literals (substring search with a repeated
+	// lead byte), a reverse-suffix pattern whose DFA states exceed a small determinisation limit, a digit-lead pattern
+	// with a proper sub-range of 0-9 and one with an unbounded tail, optional / alternative groups that a match may
+	// not take part in, and the anchored-literal form with a class bridge before the suffix
+	{"literal", `bba`}, {"literal", `aab`}, {"revsuffix", `[ab][a-z]{1,6}x`}, {"digit", `[0-5]+-[0-9]{2}`}, {"digit", `\d+\.[\d.]+[ab]`},
+	{"caps", `(ab)?cd`}, {"caps", `(?:(a)|(b))c`}, {"anchlit", `^/.*[\w-]+\.php$`},
+	// a case-insensitive literal through two three-member fold orbits, and an alternation whose later branch
+	// extends an earlier, non-adjacent one
+	{"fold", `(?i)ask`}, {"alt", `(ab|c|abd+)x`},
 }
 
 func init() {
@@ -400,6 +410,16 @@ func TokensFor(pattern string, maxTok int) []string {
 			if r.Flags&syntax.FoldCase != 0 {
 				add(strings.ToLower(s), 0)
 				add(strings.ToUpper(s), 1)
+				// spellings through the third member of a simple-fold orbit (k/K/KELVIN SIGN, s/S/LONG S)
+				for i, c := range r.Rune {
+					for f := unicode.SimpleFold(c); f != c; f = unicode.SimpleFold(f) {
+						if f != unicode.ToLower(c) && f != unicode.ToUpper(c) {
+							v := append([]rune{}, r.Rune...)
+							v[i] = f
+							add(string(v), 1)
+						}
+					}
+				}
 			} else {
 				add(s, 0)
 			}
